@@ -95,6 +95,11 @@ type Store struct {
 	// fail it before or after it takes effect (C10: every API call is an injection point).
 	Calls     int
 	CallFault func(idx int, req *Request) Fault
+	// MapperFault, if set, is asked on every REST-mapper lookup (the mapper handed to the preflight
+	// checkers and the client's RESTMapper()); a non-nil error answers the lookup — a transient
+	// discovery failure as opposed to "no such kind" (NoMatch), which is what an unregistered kind gives.
+	// The API server itself (scopes, storage keys) is unaffected: only the lookup fails.
+	MapperFault func(gk schema.GroupKind) error
 }
 
 // callFault numbers the call and asks the scenario's fault hook.
@@ -149,6 +154,11 @@ type mapper struct{ s *Store }
 func (s *Store) Mapper() meta.RESTMapper { return mapper{s} }
 
 func (m mapper) RESTMapping(gk schema.GroupKind, versions ...string) (*meta.RESTMapping, error) {
+	if f := m.s.MapperFault; f != nil {
+		if err := f(gk); err != nil {
+			return nil, err
+		}
+	}
 	sc, ok := m.s.scopes[gk]
 	if !ok {
 		return nil, &meta.NoKindMatchError{GroupKind: gk, SearchedVersions: versions}
